@@ -27,7 +27,7 @@ def jobs_for(tier):
     # n = 2, 3: every pattern, three value palettes, every kind and parameter, with and without filtered dofs
     for k in ALL:
         if k in ("poly", "ssor", "sor", "ilu"):
-            for pl in (1, 2, 3):      # the expensive kinds are sharded over the value palette
+            for pl in ((1, 2, 3) if tier == "thorough" or k == "ilu" else (1, 2)):      # the expensive kinds are sharded over the value palette
                 j.append(("n<=3 %s pal%d" % (k, pl), cfg_text([2, 3], [k], [pl], 0, 99, 1)))
         else:
             j.append(("n<=3 %s" % k, cfg_text([2, 3], [k], [1, 2, 3], 0, 99, 1)))
